@@ -6,6 +6,8 @@ lengths (u16), data slices, entry lists, request ids (u16), both build profiles 
 every sink capacity; nothing is bounded.  Helper lemmas: `Proofs/C09.lean`.
 -/
 import CamVerif.Proofs.C09
+import CamVerif.Proofs.C09Growth
+import CamVerif.Props.C08
 import CamVerif.Gen.CmdConsts
 namespace CamVerif.C09
 open CamVerif CamVerif.Cmd
@@ -435,5 +437,200 @@ example : ReadMemStacked.new [⟨0, 65535⟩, ⟨8, 1⟩] = .err .invalidPacket 
 
 example : (Cmd.readMem ⟨0x0004, 64⟩).serializeSink 1 24 =
     .ok ((Cmd.readMem ⟨0x0004, 64⟩).serialize 1) := by decide
+
+/-! ## Growth round: (b) entry counts of any size, (a) command → acknowledge round trip -/
+
+/-- **stacked_count_refused** (the C09-r3-seed1 scenario, corollary of `ctor_refuses_*Stacked`,
+which hold for lists of ANY length): a stacked read or write with 5462 or more entries — in
+particular 65536 + k entries for every k, whose count is small again modulo 2^16 — is refused
+at construction in both build profiles, whatever the entries are (zero-length reads, empty
+data, …).  The entry count is never narrowed. -/
+theorem stacked_count_refused (p : Profile) :
+    (∀ es : List ReadMem, 5462 ≤ es.length → ReadMemStacked.new es = .err .invalidPacket) ∧
+    (∀ ws : List WriteMem, 5462 ≤ ws.length → WriteMemStacked.new p ws = .err .invalidPacket) ∧
+    (∀ (es : List ReadMem) (k : Nat), es.length = 65536 + k →
+      ReadMemStacked.new es = .err .invalidPacket) ∧
+    (∀ (ws : List WriteMem) (k : Nat), ws.length = 65536 + k →
+      WriteMemStacked.new p ws = .err .invalidPacket) :=
+  ⟨rms_count_refused, wms_count_refused p,
+   fun es k h => rms_count_refused es (by omega),
+   fun ws k h => wms_count_refused p ws (by omega)⟩
+
+/-- 65536 + 5 zero-length reads: the count modulo 2^16 is 5, the command is still refused -/
+example : ReadMemStacked.new (List.replicate (65536 + 5) ⟨0x40, 0⟩) = .err .invalidPacket :=
+  (stacked_count_refused .dev).2.2.1 _ 5 (List.length_replicate ..)
+
+example : WriteMemStacked.new .release (List.replicate (65536 + 5) ⟨0x40, [], 0, 8⟩) =
+    .err .invalidPacket :=
+  (stacked_count_refused .release).2.2.2 _ 5 (List.length_replicate ..)
+
+/-- acknowledge kind the decoder must report for a command -/
+def ackKindOf : Cmd → Ack.ScdKind
+  | .readMem _ => .readMem
+  | .writeMem _ => .writeMem
+  | .readMemStacked _ => .readMemStacked
+  | .writeMemStacked _ => .writeMemStacked
+
+/-- the device response fits the command: the bytes read have the requested (total) length;
+writes carry no response data -/
+def RespFits : Cmd → Bytes → Prop
+  | .readMem r, resp => resp.length = r.readLength
+  | .readMemStacked s, resp => resp.length = (s.entries.map (·.readLength)).sum
+  | _, _ => True
+
+/-- what the typed view of the command's kind must return -/
+def ViewReturns (p : Profile) (pk : Ack.AckPacket) : Cmd → Bytes → Prop
+  | .readMem _, resp => Ack.ReadMem.parse pk.rawScd pk.ccd = .ok resp
+  | .writeMem w, _ => Ack.WriteMem.parse pk.rawScd pk.ccd = .ok w.data.length
+  | .readMemStacked _, resp => Ack.ReadMemStacked.parse pk.rawScd pk.ccd = .ok resp
+  | .writeMemStacked s, _ =>
+    Ack.WriteMemStacked.parse p pk.rawScd pk.ccd = .ok (s.entries.map (·.data.length))
+
+private theorem built_len {w : WriteMem} (h : WriteMem.Built w) : w.data.length < 2 ^ 16 := by
+  have hc := ctor_refuses_writeMem w.address w.data
+  by_cases hle : w.data.length + 8 ≤ U16_MAX
+  · simp only [U16_MAX] at hle; omega
+  · have := hc.1.2 (by omega)
+    have h2 := h.2
+    rw [this] at h2
+    cases h2
+
+private theorem sum12_ge (ws : List WriteMem) :
+    12 * ws.length ≤ (ws.map fun w => 12 + w.data.length).sum := by
+  induction ws with
+  | nil => simp
+  | cons w ws ih => simp only [List.map_cons, List.sum_cons, List.length_cons]; omega
+
+private theorem ack_core (p : Profile) (cmdId id : Nat) (scd : Bytes) (kd : Spec.GenCPAck.AckKind)
+    (hid : id < 2 ^ 16) (hcmd : cmdId < 2 ^ 16) (hlen : scd.length < 2 ^ 16)
+    (hkd : Spec.GenCPAck.ackKindOfId cmdId = some kd) :
+    (Spec.GenCPAck.encodeAck 0 cmdId id scd).length = 12 + scd.length ∧
+    Ack.AckPacket.parse p (Spec.GenCPAck.encodeAck 0 cmdId id scd) =
+      .ok ⟨⟨⟨0, .genCp .success⟩, C08.ofKind kd, id, scd.length⟩, 12, scd⟩ := by
+  have h0 : (0 : Nat) < 2 ^ 16 := by decide
+  refine ⟨(C08.encodeAck_fields 0 cmdId id scd h0 hcmd hid hlen).1, ?_⟩
+  have := C08.ack_accepts_encoded p 0 cmdId id scd (.genCp .SUCCESS) kd h0 hcmd hid hlen
+    (by decide) hkd
+  rw [this]; rfl
+
+/-- **ack_of_cmd_decodes** (C09 ∘ C08 round trip): for every command accepted by its
+constructor, every request id and every device response that fits it, the conforming
+acknowledge the reference builds (status SUCCESS, same request id, SCD = the bytes read /
+`reserved | written length` / one such entry per stacked write) has exactly
+`12 + ack_scd_len()` bytes, fits the receive buffer of `maximum_ack_len()` bytes (nothing is
+truncated), is accepted by `AckPacket::parse` in both profiles with success status, the same
+request id, `scd_len = ack_scd_len()` and the acknowledge kind of the command, and the typed
+view of that kind returns exactly the response data / the written length / the list of
+written lengths. -/
+theorem ack_of_cmd_decodes (p : Profile) (c : Cmd) (id : Nat) (resp : Bytes)
+    (hc : Constructible p c) (hid : id < 2 ^ 16) (hresp : RespFits c resp) :
+    (conformingAck (body c) id resp).length = 12 + c.ackScdLen ∧
+    (conformingAck (body c) id resp).length ≤ c.maximumAckLen ∧
+    (conformingAck (body c) id resp).take c.maximumAckLen = conformingAck (body c) id resp ∧
+    ∃ pk, Ack.AckPacket.parse p (conformingAck (body c) id resp) = .ok pk ∧
+      pk.ccd.status = ⟨0, .genCp .success⟩ ∧ pk.ccd.status.isSuccess = true ∧
+      pk.ccd.requestId = id ∧ pk.ccd.scdLen = c.ackScdLen ∧ pk.ccd.scdKind = ackKindOf c ∧
+      pk.rawScd.length = c.ackScdLen ∧ ViewReturns p pk c resp := by
+  -- it suffices to know the SCD length and the packet the decoder returns
+  suffices h : (ackScdOf (body c) resp).length = c.ackScdLen ∧
+      (ackScdOf (body c) resp).length < 2 ^ 16 ∧
+      ∃ kd, Spec.GenCPAck.ackKindOfId (ackCommandId (body c)) = some kd ∧
+        C08.ofKind kd = ackKindOf c ∧ ackCommandId (body c) < 2 ^ 16 ∧
+        ViewReturns p ⟨⟨⟨0, .genCp .success⟩, C08.ofKind kd, id, (ackScdOf (body c) resp).length⟩,
+          12, ackScdOf (body c) resp⟩ c resp by
+    obtain ⟨hl, hlt, kd, hkd, hk, hcmd, hview⟩ := h
+    obtain ⟨hlen, hparse⟩ := ack_core p (ackCommandId (body c)) id (ackScdOf (body c) resp) kd hid
+      hcmd hlt hkd
+    have hL : (conformingAck (body c) id resp).length = 12 + c.ackScdLen := by
+      simp only [conformingAck]; rw [hlen, hl]
+    have hmax : 12 + c.ackScdLen ≤ c.maximumAckLen := by
+      simp only [Cmd.maximumAckLen, ACK_HEADER_LENGTH, MINIMUM_ACK_SCD_LENGTH]; omega
+    refine ⟨hL, by omega, List.take_of_length_le (by omega), _, hparse, rfl, rfl, rfl, hl, hk,
+      hl, hview⟩
+  cases hc with
+  | readMem r hr =>
+    simp only [RespFits] at hresp
+    refine ⟨by simp [ackScdOf, body, Cmd.ackScdLen, hresp], by
+      simp only [ackScdOf, body]; rw [hresp]; exact hr.2, .readMem, (by show Spec.GenCPAck.ackKindOfId 0x0801 = _; decide), rfl,
+      (by show (0x0801 : Nat) < 2 ^ 16; decide), ?_⟩
+    simp only [ViewReturns, ackScdOf, body]
+    exact ((C08.ack_views_accept_encoded p _).1 resp rfl).1
+  | writeMem w hw =>
+    have hv := built_len hw
+    have hl4 : (Spec.GenCPAck.encodeValueScd w.data.length).length = 4 := by
+      simp [Spec.GenCPAck.encodeValueScd]
+    refine ⟨by simp only [ackScdOf, body, Cmd.ackScdLen, hl4], by
+      simp only [ackScdOf, body, hl4]; decide, .writeMem, (by show Spec.GenCPAck.ackKindOfId 0x0803 = _; decide), rfl,
+      (by show (0x0803 : Nat) < 2 ^ 16; decide), ?_⟩
+    simp only [ViewReturns, ackScdOf, body]
+    exact ((C08.ack_views_accept_encoded p _).2.1 w.data.length hv rfl).1
+  | readMemStacked es s ht hn =>
+    have hcr := ctor_refuses_readMemStacked es
+    by_cases h1 : 12 * es.length ≤ U16_MAX ∧ (es.map (·.readLength)).sum ≤ U16_MAX
+    · rw [hcr.2.1 h1.1 h1.2] at hn
+      injection hn with hn
+      subst hn
+      simp only [RespFits] at hresp
+      simp only [U16_MAX] at h1
+      refine ⟨by simp [ackScdOf, body, Cmd.ackScdLen, hresp], by
+        simp only [ackScdOf, body]; rw [hresp]; omega, .readMemStacked, (by show Spec.GenCPAck.ackKindOfId 0x0807 = _; decide), rfl,
+        (by show (0x0807 : Nat) < 2 ^ 16; decide), ?_⟩
+      simp only [ViewReturns, ackScdOf, body]
+      exact ((C08.ack_views_accept_encoded p _).1 resp rfl).2
+    · have : ReadMemStacked.new es = .err .invalidPacket := hcr.1.2 (by omega)
+      rw [this] at hn; cases hn
+  | writeMemStacked ws s hb hn =>
+    have hcr := ctor_refuses_writeMemStacked p ws hb
+    by_cases h1 : (ws.map fun w => 12 + w.data.length).sum ≤ U16_MAX
+    · rw [hcr.2.1 h1] at hn
+      injection hn with hn
+      subst hn
+      have hsum := sum12_ge ws
+      simp only [U16_MAX] at h1
+      have hls : ∀ l ∈ (ws.map fun w => w.data.length), l < 2 ^ 16 := by
+        intro l hl
+        obtain ⟨w, hw, rfl⟩ := List.mem_map.mp hl
+        exact built_len (hb w hw)
+      have hmap : ((ws.map fun w => (w.address, w.data)).map fun e => e.2.length) =
+          ws.map fun w => w.data.length := by
+        simp [List.map_map, Function.comp_def]
+      have hlen : (Spec.GenCPAck.encodeStackedScd (ws.map fun w => w.data.length)).length =
+          4 * ws.length := by
+        rw [C08.encodeStackedScd_length, List.length_map]
+      refine ⟨by simp only [ackScdOf, body, Cmd.ackScdLen, hmap, hlen], by
+        simp only [ackScdOf, body, hmap, hlen]; omega, .writeMemStacked, (by show Spec.GenCPAck.ackKindOfId 0x0809 = _; decide), rfl,
+        (by show (0x0809 : Nat) < 2 ^ 16; decide), ?_⟩
+      simp only [ViewReturns, ackScdOf, body, hmap]
+      exact (C08.ack_views_accept_encoded p _).2.2 _ hls rfl
+    · have : WriteMemStacked.new p ws = .err .invalidPacket := hcr.1.2 (by omega)
+      rw [this] at hn; cases hn
+
+/-- **pending_ack_of_cmd_decodes**: whatever the command, a PendingAck (status SUCCESS, same
+request id, SCD `reserved | timeout ms`) fits the `maximum_ack_len()` receive buffer, is
+accepted with kind Pending, and the Pending view returns the timeout. -/
+theorem pending_ack_of_cmd_decodes (p : Profile) (c : Cmd) (id t : Nat)
+    (hid : id < 2 ^ 16) (ht : t < 2 ^ 16) :
+    (Spec.GenCPAck.encodeAck 0 0x0805 id (Spec.GenCPAck.encodeValueScd t)).length = 16 ∧
+    16 ≤ c.maximumAckLen ∧
+    ∃ pk, Ack.AckPacket.parse p
+        (Spec.GenCPAck.encodeAck 0 0x0805 id (Spec.GenCPAck.encodeValueScd t)) = .ok pk ∧
+      pk.ccd.status.isSuccess = true ∧ pk.ccd.requestId = id ∧ pk.ccd.scdKind = .pending ∧
+      Ack.Pending.parse pk.rawScd pk.ccd = .ok t := by
+  have hl4 : (Spec.GenCPAck.encodeValueScd t).length = 4 := by
+    simp [Spec.GenCPAck.encodeValueScd]
+  obtain ⟨hlen, hparse⟩ := ack_core p 0x0805 id (Spec.GenCPAck.encodeValueScd t) .pending hid
+    (by decide) (by rw [hl4]; decide) (by decide)
+  refine ⟨by rw [hlen, hl4], ?_, _, hparse, rfl, rfl, rfl, ?_⟩
+  · simp only [Cmd.maximumAckLen, ACK_HEADER_LENGTH, MINIMUM_ACK_SCD_LENGTH]; omega
+  · exact ((C08.ack_views_accept_encoded p _).2.1 t ht rfl).2
+
+/-- non-vacuity: `ReadMem(4, 3)` answered with 3 bytes, and a two-entry stacked write -/
+example : Ack.AckPacket.parse .dev (conformingAck (body (.readMem ⟨4, 3⟩)) 7 [0xA, 0xB, 0xC]) =
+    .ok ⟨⟨⟨0, .genCp .success⟩, .readMem, 7, 3⟩, 12, [0xA, 0xB, 0xC]⟩ := by decide
+
+example : conformingAck (body (.writeMemStacked ⟨[⟨4, [1, 2], 2, 10⟩, ⟨8, [], 0, 8⟩], 26, 8⟩)) 7 [] =
+    [0x55, 0x33, 0x56, 0x43, 0, 0, 0x09, 0x08, 8, 0, 7, 0, 0, 0, 2, 0, 0, 0, 0, 0] ∧
+    Ack.WriteMemStacked.parse .dev [0, 0, 2, 0, 0, 0, 0, 0]
+      ⟨⟨0, .genCp .success⟩, .writeMemStacked, 7, 8⟩ = .ok [2, 0] := by decide
 
 end CamVerif.C09
